@@ -589,6 +589,47 @@ def r13_select_case_compares_built_in_values(ctx, T, rule="C12.R13"):
     ctx.require(rule, 3)
 
 
+def r16_numeric_types_are_interchangeable_at_run_time(ctx, rule="C12.R16"):
+    """`an accepted program never raises Type mismatch`: the checker accepts a numeric argument of any of the
+    four numeric types wherever a number is expected (it asks `can be cast to`), so the VM may not tell them
+    apart when it decides whether to raise Type mismatch.  Every `match` of the VM on the variant of a value
+    treats VInteger, VLong, VSingle and VDouble alike in that respect: either the arm of each of them can reach
+    the construction of RuntimeError::TypeMismatch, or none can.  `STRING$(3, c)` with the code in a SINGLE
+    variable is as good as with an INTEGER."""
+    prog = ctx.prog
+    NUM = ("VInteger", "VLong", "VSingle", "VDouble")
+    n = 0
+    for f in sorted(prog.fns.values(), key=lambda f: f.id):
+        if f.crate != "rusty_basic" or "interpreter" not in f.id or f.body is None:
+            continue
+        body = f.body
+        sws = [sw for sw in mir.enum_switches(prog, body) if sw.adt.endswith("::Variant")]
+        if not sws:
+            continue
+        tm = set()
+        for b, blk in enumerate(body.blocks):
+            if blk.get("c"):
+                continue
+            for st in blk["s"]:
+                r = st.get("r", {})
+                if st["k"] == "assign" and r.get("k") == "agg" and r.get("a") == "adt" and r.get("variant") == "TypeMismatch":
+                    tm.add(b)
+        for k, sw in enumerate(sws):
+            n += 1
+            res = {}
+            for v in NUM:
+                tgt = sw.arms.get(v, sw.otherwise)
+                res[v] = bool(tgt is not None and tm & set(body.reachable(tgt)))
+            name = f.path.split("::", 1)[1]
+            ctx.decide(len(set(res.values())) == 1, rule, "%s:%s%s" % (rule, name, "#%d" % k if k else ""), f.loc,
+                       "the four numeric variants are treated alike",
+                       "%s raises Type mismatch for %s but not for %s: a numeric argument the checker accepted (it only asks "
+                       "whether the type can be cast) fails at run time depending on which numeric type it has"
+                       % (name, sorted(v for v in NUM if res[v]), sorted(v for v in NUM if not res[v])))
+    ctx.analysed_units(rule, matches_on_variant=n)
+    ctx.require(rule, 15)
+
+
 def run(ctx):
     common.install(ctx)
     T = ot.OpTables(ctx.prog)
@@ -609,3 +650,4 @@ def run(ctx):
     from . import c01
     c01.r3_determinism(ctx, "C12.R14")
     c08.r13_argument_validators_mean_what_they_say(ctx, "C12.R15")
+    r16_numeric_types_are_interchangeable_at_run_time(ctx)
